@@ -23,7 +23,7 @@ var c02Validated = []G{
 func C02(p *ir.Program, r *report.R) {
 	c := C{p, r}
 	r.Floor = 25
-	r.Explain = "Decided: every prevote for the proposal block (defaultDoPrevote) and every lock of the proposal block (enterPrecommit) is dominated by successful evidence check, application check AND full validation (BlockExecutor.ValidateBlock -> validateBlock) of cs.ProposalBlock against the current status; a precommit for a block is only for the locked block or the block locked on this path; validateBlock's nil-error return is dominated by every comparison the property lists (ValidateBasic, chain id, height, last block id, total txs, consensus hash, validators hash unless recover, last-commit size and VerifyCommit unless height 1) and every evidence item is verified before the loop continues; ApplyBlock validates before it updates or saves status. NOT decided: that CheckBlock's execution result is right (C05), signature arithmetic (C03)."
+	r.Explain = "Decided: every prevote for the proposal block (defaultDoPrevote) and every lock of the proposal block (enterPrecommit) is dominated by successful evidence check, application check AND full validation (BlockExecutor.ValidateBlock -> validateBlock) of cs.ProposalBlock against the current status; a precommit for a block is only for the locked block or the block locked on this path; validateBlock's nil-error return is dominated by every comparison the property lists (ValidateBasic, chain id, height, last block id, total txs, consensus hash, validators hash unless recover, last-commit size and VerifyCommit unless height 1) and every evidence item is verified before the loop continues; ApplyBlock validates before it updates or saves status. ADDED after seeded-change testing: Recover gate: the completed proposal block is used (valid-block update, enterPrevote/enterPrecommit/tryFinalizeCommit) only when its header's recover counter equals the node's own, the condition under which validateBlock may skip the validators-hash comparison. NOT decided: that CheckBlock's execution result is right (C05), signature arithmetic (C03)."
 	r.Trusted = []string{"VerifyCommit (C03)", "LinkApplication.CheckBlock (C05)"}
 
 	// ---- votes are preceded by validation ------------------------------------
@@ -37,6 +37,33 @@ func C02(p *ir.Program, r *report.R) {
 		c.Guards(csT+"defaultDoPrevote", "prevote proposal block", call, c02Validated...)
 	}
 	c.MustFind("K1", csT+"defaultDoPrevote/prevote proposal block", dp, n, "prevote for the proposal block")
+
+	// ---- recover gate ----------------------------------------------------------------------
+	// validateBlock skips the validators-hash comparison for a block whose header says Recover >= 1;
+	// such a block may only become the proposal block when its recover counter is the node's own.
+	{
+		ap := p.Func("consensus", "ConsensusState.addProposalBlockPart")
+		gate := G{"recover-counter-equal", ir.EqPat("cs.RoundState.ProposalBlock.Header.Recover", "cs.recover")}
+		ng := 0
+		ir.Instrs(ap, func(in ssa.Instruction) {
+			switch x := in.(type) {
+			case *ssa.Call:
+				cn := ir.CalleeName(x)
+				if cn == "consensus.ConsensusState.enterPrevote" || cn == "consensus.ConsensusState.enterPrecommit" || cn == "consensus.ConsensusState.tryFinalizeCommit" {
+					ng++
+					c.Guards(csT+"addProposalBlockPart", "call "+cn, in, gate)
+				}
+			case *ssa.Store:
+				if fa, ok := x.Addr.(*ssa.FieldAddr); ok {
+					if fv := ir.FieldVar(fa.X, fa.Field); fv != nil && fv.Name() == "ValidBlock" {
+						ng++
+						c.Guards(csT+"addProposalBlockPart", "store ValidBlock", in, gate)
+					}
+				}
+			}
+		})
+		c.MustFind("K1", csT+"addProposalBlockPart/recover-gate", ap, ng, "uses of the completed proposal block")
+	}
 
 	ep := p.Func("consensus", "ConsensusState.enterPrecommit")
 	n = 0
